@@ -119,6 +119,19 @@ func c11Parts(r *fw.Rand, allowCall bool) []ref.Node {
 	return out2
 }
 
+// c11Edges sometimes puts a special-character command at an end of a message body (a line break, a tab, a space):
+// what is at the edges of the text is part of the message.
+func c11Edges(r *fw.Rand, body []ref.Node) []ref.Node {
+	sp := []string{`\n`, `\t`, "sp", `\n`, `\r`}
+	if r.P(1, 8) {
+		body = append([]ref.Node{&ref.Special{Name: sp[r.Intn(len(sp))]}}, body...)
+	}
+	if r.P(1, 8) {
+		body = append(body, &ref.Special{Name: sp[r.Intn(len(sp))]})
+	}
+	return body
+}
+
 func c11Msg(r *fw.Rand, k int) *ref.Msg {
 	m := &ref.Msg{Desc: fmt.Sprintf("message %d", k)}
 	if r.P(1, 4) {
@@ -129,12 +142,12 @@ func c11Msg(r *fw.Rand, k int) *ref.Msg {
 		if r.P(1, 3) {
 			p.E = &ref.Call{Fn: "length", Args: []ref.Expr{&ref.DataRef{Name: "l"}}}
 		}
-		p.Cases = []ref.PluralCase{{N: 1, Body: c11Parts(r, false)}}
-		p.Default = c11Parts(r, false)
+		p.Cases = []ref.PluralCase{{N: 1, Body: c11Edges(r, c11Parts(r, false))}}
+		p.Default = c11Edges(r, c11Parts(r, false))
 		m.Body = []ref.Node{p}
 		return m
 	}
-	m.Body = c11Parts(r, true)
+	m.Body = c11Edges(r, c11Parts(r, true))
 	return m
 }
 
